@@ -964,21 +964,30 @@ pub fn profile(prop: Prop, env: &Env) -> Profile {
         Prop::C01 | Prop::C12 => {
             allowed.dup = true;
             allowed.exotic = true;
+            allowed.nonfinite = true;
             p.allowed = allowed;
             p.allow_special = true;
         }
         Prop::C03 => {
             allowed.dup = true;
             allowed.exotic = true;
+            allowed.nonfinite = true;
             p.allowed = allowed;
         }
         Prop::C04 => {
             allowed.exotic = true;
+            allowed.nonfinite = true;
             p.allowed = allowed;
             p.programs = pick(&|f| !f.tag_clash);
         }
-        Prop::C02 => {}
+        Prop::C02 => {
+            allowed.nonfinite = true;
+            p.allowed = allowed;
+        }
         Prop::C06 => {
+            allowed.nonfinite = true;
+            allowed.collide = true;
+            p.allowed = allowed;
             p.programs = pick(&|f| !f.named);
             p.rates_pm = vec![0, 0, 60, 150, 300];
         }
@@ -1038,6 +1047,8 @@ pub fn profile(prop: Prop, env: &Env) -> Profile {
             p.rates_pm = vec![40, 100, 250];
         }
         Prop::C15 => {
+            allowed.nonfinite = true;
+            p.allowed = allowed;
             p.programs = pick(&|f| f.named || f.map_target || f.json);
             p.rates_pm = vec![0, 40, 100, 250];
         }
